@@ -10,6 +10,7 @@ Dependency soundness of M-Repr, event by event.
   value is the view itself (the universal factory `f view = view`).
 -/
 import DefconModel.Lemmas.ReprName
+import DefconModel.ReprHold
 
 namespace DefconModel
 namespace Repr
@@ -71,71 +72,6 @@ theorem applyDeliv_append' (T : Tables) (w : World V) (a b : List (Obj × String
   unfold applyDeliv; rw [List.foldl_append]
 
 /-! ### inner mutators: stamps first, evictions second -/
-
-/-- mutators that rewrite content cells and post, without moving objects between glyphs, without changing a
-base-glyph reference and without changing which glyph a name denotes -/
-def Op.isInner : Op → Bool
-  | .cmut _ _ => true
-  | .kmut _ _ => true
-  | .gmut _ _ => true
-  | .gset _ => true
-  | .touch _ _ => true
-  | _ => false
-
-/-- the stamps after the call (no cache is touched) -/
-def bumpOf (w : World V) : Op → World V
-  | .cmut cid meth =>
-    match AL.get? contourMutators meth with
-    | none => w
-    | some cell =>
-      match hostOfContour w.glyphs cid with
-      | some h => tick { w with glyphs := updGlyph w.glyphs h.1 (mapContours cid (bumpContour w.clock cell)) }
-      | none =>
-        if w.looseC.any (fun c => c.id = cid) then
-          tick { w with looseC := w.looseC.map fun c => if c.id = cid then bumpContour w.clock cell c else c }
-        else w
-  | .kmut kid meth =>
-    match AL.get? compMutators meth with
-    | none => w
-    | some cell =>
-      match hostOfComp w.glyphs kid with
-      | some h => tick { w with glyphs := updGlyph w.glyphs h.1 (mapComps kid (bumpComp w.clock cell)) }
-      | none =>
-        if w.looseK.any (fun k => k.id = kid) then
-          tick { w with looseK := w.looseK.map fun k => if k.id = kid then bumpComp w.clock cell k else k }
-        else w
-  | .gmut g meth =>
-    if !glyphMutators.contains meth then w else
-    if !AL.contains w.glyphs g then w else
-    { tick w with glyphs := updGlyph (tick w).glyphs g (fun r => { r with attr := w.clock }) }
-  | .gset meth =>
-    if !groupsMutators.contains meth then w else tick { w with groupsVer := w.clock }
-  | _ => w
-
-/-- everything the call delivers, in the structure after the stamps were set -/
-def evOf (T : Tables) (w : World V) : Op → List (Obj × String)
-  | .cmut cid meth =>
-    match AL.get? contourMutators meth with
-    | none => []
-    | some _ =>
-      match hostOfContour w.glyphs cid with
-      | some h => contourDeliv w.fuel T (bumpOf w (.cmut cid meth)).glyphs h.1 cid (T.postsOf "Contour" meth)
-      | none => []
-  | .kmut kid meth =>
-    match AL.get? compMutators meth with
-    | none => []
-    | some _ =>
-      match hostOfComp w.glyphs kid with
-      | some h => compDeliv w.fuel T (bumpOf w (.kmut kid meth)).glyphs h.1 kid (T.postsOf "Component" meth)
-      | none => []
-  | .gmut g meth =>
-    if !glyphMutators.contains meth then [] else
-    if !AL.contains w.glyphs g then [] else
-    glyphDeliv w.fuel T (bumpOf w (.gmut g meth)).glyphs g (T.postsOf "Glyph" meth)
-  | .gset meth =>
-    if !groupsMutators.contains meth then [] else (T.postsOf "Groups" meth).map fun n => (Obj.groups, n)
-  | .touch o meth => postFrom T w o (T.postsOf o.cls meth)
-  | _ => []
 
 theorem step_factor (P : Params V) (T : Tables) (w : World V) (op : Op) (hin : op.isInner = true) :
     (step P T w op).1 = applyDeliv T (bumpOf w op) (evOf T w op) := by
